@@ -44,9 +44,16 @@ type half struct {
 	eof    bool  // writer closed
 	rerr   error // reader sees this error once buf is drained (e.g. ECONNRESET)
 	wake   chan struct{}
+	cap    int           // 0 = unbounded; otherwise a writer blocks while cap bytes are unread (a peer that stopped reading)
+	space  chan struct{} // closed and replaced whenever the reader consumed bytes or cap changed
 }
 
-func newHalf() *half { return &half{wake: make(chan struct{})} }
+func newHalf() *half { return &half{wake: make(chan struct{}), space: make(chan struct{})} }
+
+func (h *half) freed() { // h.mu held
+	close(h.space)
+	h.space = make(chan struct{})
+}
 
 func (h *half) signal() { // h.mu held
 	close(h.wake)
@@ -81,21 +88,22 @@ type Conn struct {
 	closed   bool
 	closedCh chan struct{}
 	rdl      time.Time
+	wdl      time.Time
 	dlwake   chan struct{}
 
 	// harness side
-	Closes  int                             // number of Close calls
-	Ops     []Op                            // op log (only if LogOps)
-	LogOps  bool                            //
-	Fault   func(kind string, idx int) error // consulted before every op; non-nil error is returned by the op
-	opIdx   int
-	Peer    *Conn
-	cutAt   int64
-	cutSet  bool
-	cutFn   func()
-	WroteN  int64
-	ReadN   int64
-	OnClose func()
+	Closes   int                              // number of Close calls
+	Ops      []Op                             // op log (only if LogOps)
+	LogOps   bool                             //
+	Fault    func(kind string, idx int) error // consulted before every op; non-nil error is returned by the op
+	opIdx    int
+	Peer     *Conn
+	cutAt    int64
+	cutSet   bool
+	cutFn    func()
+	WroteN   int64
+	ReadN    int64
+	OnClose  func()
 	Accepted bool // set when a Listener's Accept returned this connection
 }
 
@@ -168,6 +176,7 @@ func (c *Conn) Read(b []byte) (int, error) {
 			if len(b) > 0 {
 				n = copy(b, h.buf)
 				h.buf = h.buf[n:]
+				h.freed()
 			}
 			h.mu.Unlock()
 			c.mu.Lock()
@@ -247,14 +256,71 @@ func (c *Conn) Write(b []byte) (int, error) {
 	}
 	c.mu.Unlock()
 	h := c.wr
-	h.mu.Lock()
-	if h.manual {
-		h.staged = append(h.staged, b...)
-	} else if len(b) > 0 {
-		h.buf = append(h.buf, b...)
-		h.signal()
+	rest := b
+	for {
+		h.mu.Lock()
+		if h.manual || h.cap == 0 {
+			if h.manual {
+				h.staged = append(h.staged, rest...)
+			} else if len(rest) > 0 {
+				h.buf = append(h.buf, rest...)
+				h.signal()
+			}
+			h.mu.Unlock()
+			break
+		}
+		free := h.cap - len(h.buf)
+		if free > 0 {
+			n := free
+			if n > len(rest) {
+				n = len(rest)
+			}
+			h.buf = append(h.buf, rest[:n]...)
+			rest = rest[n:]
+			h.signal()
+		}
+		if len(rest) == 0 {
+			h.mu.Unlock()
+			break
+		}
+		sp := h.space
+		h.mu.Unlock()
+		// the peer is not reading: block (durably, on channels) until it does, we are closed, or the write deadline passes
+		c.mu.Lock()
+		wdl, closedCh, dw := c.wdl, c.closedCh, c.dlwake
+		c.mu.Unlock()
+		var tc <-chan time.Time
+		var t *time.Timer
+		if !wdl.IsZero() {
+			d := time.Until(wdl)
+			if d <= 0 {
+				wrote := len(b) - len(rest)
+				c.logOp("Write", wrote, ErrTimeout)
+				return wrote, &net.OpError{Op: "write", Net: "mem", Addr: c.remote, Err: ErrTimeout}
+			}
+			t = time.NewTimer(d)
+			tc = t.C
+		}
+		select {
+		case <-sp:
+		case <-closedCh:
+			if t != nil {
+				t.Stop()
+			}
+			return len(b) - len(rest), net.ErrClosed
+		case <-dw:
+		case <-tc:
+		}
+		if t != nil {
+			t.Stop()
+		}
+		p.mu.Lock()
+		gone := p.closed
+		p.mu.Unlock()
+		if gone {
+			return len(b) - len(rest), &net.OpError{Op: "write", Net: "mem", Addr: c.remote, Err: syscall.EPIPE}
+		}
 	}
-	h.mu.Unlock()
 	c.mu.Lock()
 	c.WroteN += int64(len(b))
 	c.mu.Unlock()
@@ -286,6 +352,10 @@ func (c *Conn) Close() error {
 	// bytes staged but never delivered are lost with the connection only if the harness says so; deliver by default
 	h.signal()
 	h.mu.Unlock()
+	// a peer blocked writing to us (bounded buffer) must notice that we are gone
+	c.rd.mu.Lock()
+	c.rd.freed()
+	c.rd.mu.Unlock()
 	c.logOp("Close", 0, ferr)
 	if oc != nil {
 		oc()
@@ -322,6 +392,9 @@ func (c *Conn) Reset(err error) {
 		close(c.closedCh)
 	}
 	c.mu.Unlock()
+	c.rd.mu.Lock()
+	c.rd.freed()
+	c.rd.mu.Unlock()
 }
 
 func (c *Conn) LocalAddr() net.Addr  { return c.local }
@@ -331,6 +404,9 @@ func (c *Conn) SetDeadline(t time.Time) error {
 	if _, err := c.op("SetDeadline"); err != nil {
 		return err
 	}
+	c.mu.Lock()
+	c.wdl = t
+	c.mu.Unlock()
 	c.setRD(t)
 	return nil
 }
@@ -345,6 +421,11 @@ func (c *Conn) SetWriteDeadline(t time.Time) error {
 	if _, err := c.op("SetWriteDeadline"); err != nil {
 		return err
 	}
+	c.mu.Lock()
+	c.wdl = t
+	close(c.dlwake)
+	c.dlwake = make(chan struct{})
+	c.mu.Unlock()
 	return nil
 }
 
@@ -405,12 +486,12 @@ func (c *Conn) Unread() int {
 
 // Listener is an in-memory net.Listener.
 type Listener struct {
-	mu       sync.Mutex
-	ch       chan net.Conn
-	closedCh chan struct{}
-	closed   bool
-	Closes   int
-	addr     net.Addr
+	mu        sync.Mutex
+	ch        chan net.Conn
+	closedCh  chan struct{}
+	closed    bool
+	Closes    int
+	addr      net.Addr
 	AcceptErr error // returned once by the next Accept if set
 	accepted  int
 }
@@ -531,6 +612,7 @@ func (c *Conn) TakeAll() []byte {
 	defer h.mu.Unlock()
 	b := h.buf
 	h.buf = nil
+	h.freed()
 	return b
 }
 
@@ -540,4 +622,15 @@ func (c *Conn) PeerGone() bool {
 	h.mu.Lock()
 	defer h.mu.Unlock()
 	return h.eof || h.rerr != nil
+}
+
+// SetWriteCap bounds how many bytes written by c may sit unread at the peer (0 = unbounded, the default): with a
+// bound, c's writer blocks - like a TCP sender whose peer stopped reading - until the peer reads, c is closed, the
+// peer closes, or c's write deadline passes.
+func (c *Conn) SetWriteCap(n int) {
+	h := c.wr
+	h.mu.Lock()
+	h.cap = n
+	h.freed()
+	h.mu.Unlock()
 }
